@@ -1384,6 +1384,24 @@ pub fn suite_cost(ctx: &mut Ctx) {
         runtail2.remove(n / 3);
         runtail2.push(9);
         adversarial.push((runtail, runtail2));
+        // a unique header (an anchor for Patience), then a periodic body rotated by one (D = 2) with no further anchor:
+        // whatever diffs the stretch after the last anchor must still be near-linear
+        for body in [k as usize / 2 + 5, 60, 120, 250] {
+            for p in [2u32, 3, 7] {
+                let b: Vec<u32> = (0..body as u32).map(|i| i % p).collect();
+                let mut rot = b[1..].to_vec();
+                rot.push(b[0]);
+                let mut o = vec![777_777u32];
+                o.extend_from_slice(&b);
+                let mut nn = vec![777_777u32];
+                nn.extend_from_slice(&rot);
+                adversarial.push((o.clone(), nn.clone()));
+                // the same after a unique header AND before a unique footer
+                o.push(888_888);
+                nn.push(888_888);
+                adversarial.push((o, nn));
+            }
+        }
     }
     let nadv = adversarial.len();
     for i in 0..count + nadv {
